@@ -64,12 +64,24 @@ def r05_1_mapping_table(ctx: Ctx) -> RuleResult:
         g = M.func(q)
         rr.inst()
         I = interp(ctx)
-        tests = [n.test for n in own_nodes(g.node) if isinstance(n, ast.If) and isinstance(n.test, ast.Compare) and "_days_since_epoch" in unparse(n.test)]
-        defs = {n.targets[0].id: n.value for n in own_nodes(g.node) if isinstance(n, ast.Assign) and isinstance(n.targets[0], ast.Name)}
-        if len(tests) != 1 or len(tests[0].ops) != 1:
+        # the condition under which the neighbouring interval is probed: facts holding at the probe call (an enclosing `if`,
+        # or the negation of an earlier `if ...: return None`)
+        from ..exc import facts_at
+
+        probes = [n for n in own_nodes(g.node) if isinstance(n, ast.Call) and isinstance(n.func, ast.Attribute) and n.func.attr == "get_zone_interval"]
+        cands = []
+        for pc in probes:
+            for (l, o, r) in sorted(facts_at(pc)):
+                if "local_instant" in l and "_days_since_epoch" in l and "_days_since_epoch" in r and o in ("<", "<=", ">", ">="):
+                    cands.append((l, o, r))
+        if len(probes) != 1 or len(set(cands)) != 1:
             rr.fail(q, "day pre-filter not recognised", ctx.loc(g))
             continue
-        t = tests[0]
+        l0, o0, r0 = cands[0]
+        t = ast.parse(f"{l0} {o0} {r0}", mode="eval").body
+        for sub in ast.walk(t):
+            for ch in ast.iter_child_nodes(sub):
+                ch._parent = sub  # type: ignore[attr-defined]
         st = State({})
         la, lb = I.lin(I.term(t.left, st, g)), I.lin(I.term(t.comparators[0], st, g))
         op = type(t.ops[0])
